@@ -28,12 +28,19 @@ func dependsOn(v ssa.Value, pred func(ssa.Value) bool) bool {
 				return true
 			}
 		}
-		// loads of local variables: follow the stores
-		if u, ok := v.(*ssa.UnOp); ok {
-			if a, ok := u.X.(*ssa.Alloc); ok {
-				for _, r := range *a.Referrers() {
-					if st, ok := r.(*ssa.Store); ok && st.Addr == a && visit(st.Val) {
+		// local objects (variables, composite literals, varargs arrays): follow what is stored into them
+		if a, ok := v.(*ssa.Alloc); ok {
+			for _, r := range *a.Referrers() {
+				switch x := r.(type) {
+				case *ssa.Store:
+					if x.Addr == a && visit(x.Val) {
 						return true
+					}
+				case *ssa.FieldAddr, *ssa.IndexAddr:
+					for _, rr := range *x.(ssa.Value).Referrers() {
+						if st, ok := rr.(*ssa.Store); ok && st.Addr == x.(ssa.Value) && visit(st.Val) {
+							return true
+						}
 					}
 				}
 			}
